@@ -106,6 +106,10 @@ def hOut (st : Stat) (o : Option Nat) : String :=
 def hOut2 (st : Stat) (o : Option (Nat × Nat)) : String :=
   match o with | some v => if st == .ok then s!"{fmtStat st} out={v.1} out2={v.2}" else fmtStat st | none => fmtStat st
 
+/-- `noout=1`: the optional out-pointer(s) were NULL, nothing is reported besides the status -/
+def hOutN (c : Cmd) (st : Stat) (o : Option Nat) : String := if c.nat "noout" 0 != 0 then fmtStat st else hOut st o
+def hOut2N (c : Cmd) (st : Stat) (o : Option (Nat × Nat)) : String := if c.nat "noout" 0 != 0 then fmtStat st else hOut2 st o
+
 def pickCmp (c : Cmd) : Nat → Nat → Int := if c.str "cmp" == some "key" then LSeq.cmpKey else LSeq.cmpNum
 
 /-- destroy every live slot in ascending order -/
@@ -165,13 +169,13 @@ def iterStep (s : Sess) (c : Cmd) (m : Mem) : Sess × String × String :=
           let sx3 := setM (setM s s.itO (some r.2.2.1)) s.itO2 (some r.2.2.2.1)
           let s' := { sx3 with zit := (r.2.2.2.2.1), mem := (r.2.2.2.2.2), itChanged := if r.1 == .ok then true else s.itChanged }
           let sx4 := setS (setS s' s.itO (some rs.2.2.1)) s.itO2 (some rs.2.2.2.1)
-          fin { sx4 with sit := (rs.2.2.2.2) } (hOut2 rs.1 rs.2.1) (hOut2 r.1 r.2.1)
+          fin { sx4 with sit := (rs.2.2.2.2) } (hOut2N c rs.1 rs.2.1) (hOut2N c r.1 r.2.1)
         | "replace" =>
           let r := DList.zipReplace l1 l2 z (c.arg 0) (c.arg 1) m
           let rs := LSeq.zitReplace a1 a2 s.sit (c.arg 0) (c.arg 1)
           let sx5 := setM (setM s s.itO (some r.2.2.1)) s.itO2 (some r.2.2.2.1)
           let s' := { sx5 with mem := (r.2.2.2.2) }
-          fin (setS (setS s' s.itO (some rs.2.2.1)) s.itO2 (some rs.2.2.2)) (hOut2 rs.1 rs.2.1) (hOut2 r.1 r.2.1)
+          fin (setS (setS s' s.itO (some rs.2.2.1)) s.itO2 (some rs.2.2.2)) (hOut2N c rs.1 rs.2.1) (hOut2N c r.1 r.2.1)
         | "index" => fin s s!"st=- out={LSeq.itIndex s.sit}" s!"st=- out={DList.zipIndex z}"
         | _ => fin1 s "st=- badop"
       | _, _, _, _ => fin1 s "st=- noiter"
@@ -202,12 +206,12 @@ def iterStep (s : Sess) (c : Cmd) (m : Mem) : Sess × String × String :=
           let sx8 := setM s s.itO (some r.2.2.1)
           let s' := { sx8 with it := (r.2.2.2.1), mem := (r.2.2.2.2), itChanged := if r.1 == .ok then true else s.itChanged }
           let sx9 := setS s' s.itO (some rs.2.2.1)
-          fin { sx9 with sit := (rs.2.2.2) } (hOut rs.1 rs.2.1) (hOut r.1 r.2.1)
+          fin { sx9 with sit := (rs.2.2.2) } (hOutN c rs.1 rs.2.1) (hOutN c r.1 r.2.1)
         | "replace" =>
           let r := DList.iterReplace l it (c.arg 0) m
           let rs := LSeq.itReplace a s.sit (c.arg 0)
           let sx10 := setM s s.itO (some r.2.2.1)
-          fin (setS { sx10 with mem := (r.2.2.2) } s.itO (some rs.2.2)) (hOut rs.1 rs.2.1) (hOut r.1 r.2.1)
+          fin (setS { sx10 with mem := (r.2.2.2) } s.itO (some rs.2.2)) (hOutN c rs.1 rs.2.1) (hOutN c r.1 r.2.1)
         | "index" =>
           fin s s!"st=- out={if asc then LSeq.itIndex s.sit else LSeq.ditIndex s.sit}"
                 s!"st=- out={if asc then DList.iterIndex it else DList.diterIndex it}"
@@ -284,7 +288,7 @@ def stepCore (s : Sess) (c : Cmd) : Sess × String × String :=
                else if c.op == "remove_first" then DList.removeFirst l m else DList.removeLast l m
       let q := if c.op == "remove" then LSeq.remove a v else if c.op == "remove_at" then LSeq.removeAt a idx
                else if c.op == "remove_first" then LSeq.removeFirst a else LSeq.removeLast a
-      fin (setMS s k r.2.2.1 q.2.2 r.2.2.2) (hOut q.1 q.2.1) (hOut r.1 r.2.1)
+      fin (setMS s k r.2.2.1 q.2.2 r.2.2.2) (hOutN c q.1 q.2.1) (hOutN c r.1 r.2.1)
     | "remove_all" | "remove_all_cb" =>
       let r := DList.removeAll l m
       let q := LSeq.removeAll a
@@ -293,7 +297,7 @@ def stepCore (s : Sess) (c : Cmd) : Sess × String × String :=
     | "replace_at" =>
       let r := DList.replaceAt l v idx m
       let q := LSeq.replaceAt a v idx
-      fin (setMS s k r.2.2.1 q.2.2 r.2.2.2) (hOut q.1 q.2.1) (hOut r.1 r.2.1)
+      fin (setMS s k r.2.2.1 q.2.2 r.2.2.2) (hOutN c q.1 q.2.1) (hOutN c r.1 r.2.1)
     | "get_first" | "get_last" | "get_at" =>
       let r := if c.op == "get_first" then DList.getFirst l m else if c.op == "get_last" then DList.getLast l m else DList.getAt l idx m
       let q := if c.op == "get_first" then LSeq.getFirst a else if c.op == "get_last" then LSeq.getLast a else LSeq.getAt a idx
@@ -360,8 +364,7 @@ def stepCore (s : Sess) (c : Cmd) : Sess × String × String :=
 /-! ### the pointer-level model alongside -/
 
 def plUnsupported : List String :=
-  ["sort", "sort_in_place", "filter_mut", "mk_sub", "mk_copy_shallow", "mk_copy_deep", "mk_filter",
-   "it_add", "it_remove", "it_replace", "dit_add", "dit_remove", "dit_replace", "zit_add", "zit_remove", "zit_replace"]
+  ["sort", "sort_in_place", "filter_mut", "mk_sub", "mk_copy_shallow", "mk_copy_deep", "mk_filter"]
 
 /-- rebuild the pointer-level state from the sequence-level one (fresh nodes, linked canonically): used after the
 operations that have no pointer-level model; the shim renumbers its nodes at the same moments -/
@@ -405,6 +408,46 @@ def plStep (old s : Sess) (c : Cmd) : Sess :=
       | none => acc
       | some h => let d := PList.destroy acc.1 h acc.2; (d.2.1, d.2.2)) (s.pst, m)
     chk { s with pst := r.1, phd := [none, none, none, none] } r.2
+  else if c.op.startsWith "it_" || c.op.startsWith "dit_" || c.op.startsWith "zit_" then
+    -- iterator mutators: the cursor is the sequence-level one; `iter->last` is the node at that position
+    let want := if c.op.startsWith "it_" then 1 else if c.op.startsWith "dit_" then 2 else 3
+    let sub := (c.op.drop (if want == 1 then 3 else 4)).toString
+    if old.itKind != want || !(sub == "add" || sub == "remove" || sub == "replace") then s else
+    let idAt (j : Nat) (p : Ptr) : Option Nat :=
+      match old.phd.getD j none, p with
+      | some h, some pos => (pWalk old.pst.heap (h.size + 4) h.head [])[pos]?
+      | _, _ => none
+    if want == 3 then
+      let z := old.zit
+      match old.phd.getD old.itO none, old.phd.getD old.itO2 none, idAt old.itO z.last1, idAt old.itO2 z.last2 with
+      | some h1, some h2, some n1, some n2 =>
+        if sub == "add" then
+          if old.itChanged then s else
+          let r := PList.zipAddAt s.pst h1 h2 n1 n2 z.index (c.arg 0) (c.arg 1) m
+          chk (setP (setP s old.itO r.2.1 (some r.2.2.1)) old.itO2 r.2.1 (some r.2.2.2.1)) r.2.2.2.2
+        else if sub == "remove" then
+          if old.itChanged then s else
+          let u1 := PList.iterRemoveAt s.pst h1 n1 m
+          let u2 := PList.iterRemoveAt u1.2.1 h2 n2 u1.2.2.2
+          chk (setP (setP s old.itO u2.2.1 (some u1.2.2.1)) old.itO2 u2.2.1 (some u2.2.2.1)) u2.2.2.2
+        else
+          let r1 := PList.iterReplaceAt s.pst n1 (c.arg 0)
+          let r2 := PList.iterReplaceAt r1.2 n2 (c.arg 1)
+          { s with pst := r2.2 }
+      | _, _, _, _ => s
+    else
+      match old.phd.getD old.itO none, idAt old.itO old.it.last with
+      | some h, some n =>
+        if sub == "add" then
+          if old.itChanged then s else
+          let r := if want == 1 then PList.iterAddAt s.pst h n old.it.index (c.arg 0) m else PList.diterAddAt s.pst h n old.it.index (c.arg 0) m
+          chk (setP s old.itO r.2.1 (some r.2.2.1)) r.2.2.2
+        else if sub == "remove" then
+          if old.itChanged then s else
+          let u := PList.iterRemoveAt s.pst h n m
+          chk (setP s old.itO u.2.1 (some u.2.2.1)) u.2.2.2
+        else { s with pst := (PList.iterReplaceAt s.pst n (c.arg 0)).2 }
+      | _, _ => s
   else
   match old.phd.getD k none, getM old k with
   | some h, some _ =>
